@@ -1,6 +1,124 @@
 import WhVerif.Util.Proto
+import WhVerif.Model.C10
 namespace WhVerif.Driver.C10
-open Lean WhVerif.Proto
-/-- ops of property C10 are named `c10.<name>`; return `none` for ops that are not ours -/
-def handle (_op : String) (_j : Json) : Option Json := none
+open Lean WhVerif.Proto WhVerif.C10
+
+def rv? (j : Json) : Option RV := do
+  match ← natList? j with
+  | [p, a, q] => some ⟨p, a, q⟩
+  | _ => none
+
+def rvs? (j : Json) : Option (List RV) := do (← asArr? j).mapM rv?
+
+def phaseEntry? (j : Json) : Option (Nat × (Int × List Nat)) := do
+  match ← asArr? j with
+  | [p, ps, ph] => some (← asNat? p, (← asInt? ps, ← natList? ph))
+  | _ => none
+
+def phase? (j : Json) : Option PhaseInfo := do (← asArr? j).mapM phaseEntry?
+
+def optStr? (j : Json) : Option (Option String) :=
+  match j with
+  | Json.null => some none
+  | Json.str s => some (some s)
+  | _ => none
+
+def ofRV (v : RV) : Json := ofNatList [v.pos, v.allele, v.qual]
+
+def errName : Err → String
+  | .keyError => "KeyError" | .assertAllele => "AssertionError" | .indexError => "IndexError"
+
+def ofDecision : Decision → Json
+  | .untagged => Json.str "untagged"
+  | .tagged h q ps => Json.arr #[Json.str "tagged", ofNat h, ofNat q, ofInt ps]
+  | .error e => Json.arr #[Json.str "error", Json.str (errName e)]
+
+/-- decisions for every phase set whose best score equals the largest best score (what a different
+iteration order of the `reads_to_consider` set could report) -/
+def admissible (ploidy : Nat) (info : PhaseInfo) (rvs : List RV) : List Decision :=
+  match accumulate ploidy info [] rvs with
+  | .error e => [.error e]
+  | .ok sc =>
+    match pickSet sc with
+    | none => [.untagged]
+    | some b => (sc.filter fun e => listMax e.2 == listMax b.2).map fun e => decideScores e.1 e.2
+
+/-- the read clouds formed by `prepare` (names of `reads_to_consider`) with their admissible decisions -/
+def clouds (ploidy : Nat) (info : PhaseInfo) (cutoff : Int) (il : Bool) (reads : List SetRead) :
+    List (List String × List Decision) :=
+  (reads.foldl (fun (acc : Prepared × List (List String × List Decision)) r =>
+    let st' := prepareStep ploidy info cutoff il acc.1 r reads
+    let names := st'.processed.drop acc.1.processed.length
+    if names.isEmpty then (st', acc.2) else
+    let rvs := names.flatMap fun n => (reads.filter (·.name == n)).flatMap (·.variants)
+    (st', acc.2 ++ [(names, admissible ploidy info rvs)])) (({} : Prepared), [])).2
+
+def alnRead? (j : Json) : Option AlnRead := do
+  match ← asArr? j with
+  | [s, r, a, b, vs] => some ⟨← asBool? s, ← asBool? r, ← asInt? a, ← asInt? b, ← rvs? vs⟩
+  | _ => none
+
+def setRead? (j : Json) : Option SetRead := do
+  match ← asArr? j with
+  | [n, st, bx, vs] => some ⟨← asStr? n, ← asInt? st, ← optStr? bx, ← rvs? vs⟩
+  | _ => none
+
+structure AlnView where
+  name : String
+  unmapped : Bool
+  secondary : Bool
+  supplementary : Bool
+  refStart : Int
+  bx : Option String
+
+def alnView? (j : Json) : Option AlnView := do
+  match ← asArr? j with
+  | [n, u, s, sp, st, bx] => some ⟨← asStr? n, ← asBool? u, ← asBool? s, ← asBool? sp, ← asInt? st, ← optStr? bx⟩
+  | _ => none
+
+def ofTags (t : Tags) : Json :=
+  Json.arr #[(match t.hp with | some x => ofNat x | none => Json.null),
+             (match t.pc with | some x => ofNat x | none => Json.null),
+             (match t.ps with | some x => ofInt x | none => Json.null)]
+
+def sample? (j : Json) : Option (PhaseInfo × List SetRead) := do
+  let ph ← phase? (← getObj? j "phase")
+  let rs ← (← getList? j "reads").mapM setRead?
+  some (ph, rs)
+
+def handle (op : String) (j : Json) : Option Json :=
+  if op == "c10.decide" then
+    match getNat? j "ploidy", (getObj? j "phase").bind phase?, (getList? j "reads").bind (·.mapM rvs?) with
+    | some pl, some info, some reads =>
+      some (Json.arr (reads.map fun r => Json.mkObj [
+        ("d", ofDecision (tagDecision pl info r)),
+        ("adm", ofList ofDecision (admissible pl info r))]).toArray)
+    | _, _, _ => some badInput
+  else if op == "c10.group" then
+    match getInt? j "threshold", getBool? j "repaired", (getList? j "groups").bind (·.mapM fun g => (asArr? g).bind (·.mapM alnRead?)) with
+    | some th, some rep, some groups =>
+      some (Json.arr (groups.map fun g => match groupRead rep th g with
+        | none => Json.null
+        | some (st, vs) => Json.arr #[ofInt st, ofList ofRV vs]).toArray)
+    | _, _, _ => some badInput
+  else if op == "c10.chrom" then
+    match getNat? j "ploidy", getInt? j "cutoff", getBool? j "ignoreLinked", getBool? j "tagSupp",
+      (getList? j "samples").bind (·.mapM sample?), (getList? j "alns").bind (·.mapM alnView?) with
+    | some pl, some cutoff, some il, some ts, some samples, some alns =>
+      let st := samples.foldl (fun (st : Prepared) (s : PhaseInfo × List SetRead) =>
+        prepare pl s.1 cutoff il { st with processed := [] } s.2) {}
+      let cl := samples.flatMap fun s => clouds pl s.1 cutoff il s.2
+      let ctx : ChromCtx := ⟨st.readToHap, st.bxToHap, cutoff, il, ts⟩
+      let tags := alns.map fun a =>
+        (tagAln ctx (⟨(), a.name, a.unmapped, a.secondary, a.supplementary, a.refStart, a.refStart, a.bx, {}⟩ : Aln Unit)).tags
+      some (Json.mkObj [
+        ("tags", ofList ofTags tags),
+        ("nMultiple", ofNat st.nMultiple),
+        ("clouds", ofList (fun (c : List String × List Decision) =>
+            Json.arr #[ofList Json.str c.1, ofList ofDecision c.2]) cl),
+        ("error", match st.error with | some e => Json.str (errName e) | none => Json.null),
+        ("readToHap", ofList (fun (e : String × (Nat × Nat × Int)) =>
+            Json.arr #[Json.str e.1, ofNat e.2.1, ofNat e.2.2.1, ofInt e.2.2.2]) st.readToHap)])
+    | _, _, _, _, _, _ => some badInput
+  else none
 end WhVerif.Driver.C10
